@@ -391,6 +391,7 @@ func checkC07(c *Ctx) int {
 	run := ev.NewRun("C07", c.Tier, "model_checking")
 	t0 := time.Now()
 	mcNodes := c.pick(4, 5)
+	oddRun := startOddMC(c) // third round: Inv_C07X over NextX, joined in c07Odd (c07_args.go)
 	// 1. model-check the intended design (with refused requests as stuttering transitions)
 	mcCfg := "SPECIFICATION Spec\n" + dagConstants(mcNodes, 2, 3, true) +
 		"VIEW View\nINVARIANTS Inv_C07\nPROPERTIES Act_C07_RejectIsStutter Act_Monotone\nCHECK_DEADLOCK FALSE\n"
@@ -405,7 +406,7 @@ func checkC07(c *Ctx) int {
 	// (repo deletion, foreign-repo parents, UUID reuse across repos).
 	type gcfg struct{ nodes, repos, rejNodes int }
 	cfgs := []gcfg{{c.pick(4, 5), 1, c.pick(0, 4)}, {c.pick(3, 4), 2, c.pick(3, 4)}}
-	var nAccepted, nRejected, nStates int64
+	var nAccepted, nRejected, nStates, nOdd int64
 	var descr []string
 	for _, gc := range cfgs {
 		g, _ := emitDagGraph(c, gc.nodes, gc.repos, 3)
@@ -416,6 +417,13 @@ func checkC07(c *Ctx) int {
 		descr = append(descr, fmt.Sprintf("MaxNodes=%d MaxRepos=%d -> %d states, %d accepted edges; refused requests on states with < %d nodes: %d", gc.nodes, gc.repos, len(g.states), len(g.edges), gc.rejNodes, nrej))
 		replayDagGraph(c, run, g, &nAccepted, &nRejected, &nStates)
 		replayDagRPC(c, run, g, &nAccepted, &nRejected) // the same requests as commands of the RPC path (c07_rpc.go)
+		if gc.nodes == 4 && gc.repos == 1 {
+			nOdd = c07Odd(c, run, g, 4, 1, oddRun) // third round: odd arguments, refused requests at merge states, server-wide projection (c07_args.go)
+		}
+	}
+	if nOdd == 0 {
+		gx, _ := emitDagGraph(c, 4, 1, 3)
+		nOdd = c07Odd(c, run, gx, 4, 1, oddRun)
 	}
 	run.Set("replay_graph", descr)
 	nTr, nEv := runKVTraces(c, run, c.pick(60, 400), c.pick(50, 80), c.pick(12, 16), false, "")
@@ -423,7 +431,7 @@ func checkC07(c *Ctx) int {
 	run.Set("random_trace_events", nEv)
 	// second round: make-master / hide-branch / addressing, resolve, sync wiring (c07_growth.go)
 	nGrowth := c07Growth(c, run)
-	run.Set("traces_validated_against_impl", nAccepted+nRejected+int64(nTr)+nGrowth)
+	run.Set("traces_validated_against_impl", nAccepted+nRejected+int64(nTr)+nGrowth+nOdd)
 	run.Set("accepted_edges_replayed", nAccepted)
 	run.Set("refused_requests_replayed", nRejected)
 	run.Set("rule", "one case = one transition of the TLC state graph (accepted request) or one refused request of the argument domain at a reachable state, replayed on the real server with the projected DAG, heads and identifier maps compared before and after; distinct = distinct (state, request)")
